@@ -129,6 +129,13 @@ def abnormal_exits(ctx, prog, A):
     ctx.require(len(ex) == 1, 'bailout: expected one _exit')
     ctx.ob('C16.cleanup', 'bailout(): cleanup() precedes _exit on the main-thread path', b.loc(ex[0]),
            any(cfg.insn_dominates(b, c_, ex[0], dom) for c_ in cu), 'cleanup calls at %s' % [c_.line for c_ in cu])
+    # the unblocking of SIGPIPE/SIGXFSZ may kill the process on the spot (a pending one is delivered): the
+    # partial output must already be gone
+    um = [c_ for c_ in b.calls('xmask') if const_arg(P, c_, 0) == 1]
+    ctx.ob('C16.cleanup', 'bailout(): cleanup() precedes the unblocking of SIGPIPE/SIGXFSZ (a pending one kills the '
+           'process at once, so nothing after it is guaranteed to run)', b.loc(um[0]) if um else b.loc(),
+           bool(um) and bool(cu) and all(any(cfg.insn_dominates(b, c_, u, dom) for c_ in cu) for u in um),
+           'cleanup at %s, unblock at %s' % ([c_.line for c_ in cu], [u.line for u in um]))
     ctx.ob('C16.cleanup', 'bailout(): exit status is 1', b.loc(ex[0]), const_arg(P, ex[0], 0) == 1, render(P.expr(ex[0].ops[0])))
     # halt: default -> cleanup; terminate.  SIGUSR1 -> bailout.  SIGUSR2 -> return
     h = prog.func('signals', 'halt')
